@@ -21,7 +21,7 @@ import os
 
 from ..absint import Val, enum_table, run, variant, vstr
 from ..flow import arg_origins
-from ..mir import try_edges
+from ..mir import op_local, try_edges
 from ..util import (agg_assigns, call_true_false_edges, polls, result_return_kinds, unreachable_without, where)
 from .http_common import GET, POST, SEND, bounded_loop_rule, fresh_nonce_rule, post_structure
 
@@ -98,6 +98,36 @@ def check(ctx):
         ctx.require(R2, v is not None and v not in rec, "%s:%s" % (gt.file, gt.line),
                     "a problem document without `type` (default %r -> %s) is not recoverable" % (dflt.v, v), ["get_type", "default-class"])
     gat = prog.must_body("acmed::acme_proto::structs::error::HttpApiError::get_acme_type")
+    # the classification used by the retry decision, EVALUATED on problem documents: it depends on the `type` member only (a typeless
+    # document, or one with `about:blank`, is Unknown whatever its `status` says — such an answer is never re-sent)
+    from ..absint import NONE as _N, Val as _V, some as _some, struct_val as _sv, vint as _vi
+    HAE = "acmed::acme_proto::structs::error::HttpApiError"
+    fs_ = prog.adt_fields(HAE)
+    tfield = [f for f in fs_ if f in ("error_type", "type", "type_")] or [f for f in fs_ if "type" in f]
+    if tfield and "status" in fs_:
+        for ty in (None, "about:blank", "urn:ietf:params:acme:error:badNonce", "urn:ietf:params:acme:error:unauthorized", "urn:example:other"):
+            base_ = None
+            for st_ in (None, 400, 403, 429, 500, 502, 503, 599):
+                doc = _sv(prog, HAE, {tfield[0]: _some(vstr(ty)) if ty is not None else _N, "status": _some(_vi(st_)) if st_ is not None else _N, "detail": _N})
+                try:
+                    r = run(gat, {1: _V("ref", doc)}, None, max_steps=20000, follow=lambda cs: (cs.name or "").startswith("acmed::acme_proto::structs::error::") or "AcmeError" in (cs.name or ""))
+                except Exception:
+                    r = None
+                rv_ = r.ret.deref() if r is not None and r.kind == "return" and r.ret is not None else None
+                if rv_ is not None and rv_.k == "str":
+                    # `.into()` is the blanket Into: the conversion itself is From<String> for AcmeError (evaluated above for every URN)
+                    r2 = run(fb, {1: rv_})
+                    rv_ = r2.ret.deref() if r2.kind == "return" and r2.ret is not None else None
+                got = rv_.v if rv_ is not None and rv_.k == "variant" else None
+                if got is None:
+                    break
+                if st_ is None:
+                    base_ = got
+                    want = rows.get(ty, "Unknown") if ty is not None else "Unknown"
+                    ctx.require(R2, got == want, "%s:%s" % (gat.file, gat.line), "problem document type %r -> %s (expected %s)" % (ty, got, want), ["get_acme_type", "evaluated", str(ty)])
+                else:
+                    ctx.require(R2, got == base_, "%s:%s" % (gat.file, gat.line), "problem document type %r, status %s -> %s (the status member does not change the class: %s)" % (ty, st_, got, base_),
+                                ["get_acme_type", "status-independent", str(ty), str(st_)])
     ok = bool(gat.calls_to("acmed::acme_proto::structs::error::HttpApiError::get_type")) and any(
         c.res and c.res.endswith("::into") or (c.res == FROM) for c in gat.calls)
     ctx.require(R2, ok, "%s:%s" % (gat.file, gat.line), "get_acme_type = get_type().into()", ["get_acme_type", "wiring"])
@@ -122,6 +152,29 @@ def check(ctx):
         posts = body.calls_to("acmed::http::post_jose", "acmed::http::post")
         ctx.floor(R3, "POST creation sites in %s" % fn, len(posts), 1)
         in_loop = [c for c in posts if body.scc_of(c.bb) is not None]
+        # a poll that FAILED ends the polling with that error: from the Err edge of the poll's result (and of the parsing of its body)
+        # the loop does not go round again — an error answer at a poll position must not be re-sent as the next poll
+        from ..mir import try_edges as _te
+        from ..util import POLL as _POLL
+        for c in in_loop:
+            sccset = set(body.scc_of(c.bb))
+            pls = [p_ for p_ in body.calls if p_.fn == _POLL and p_.res and (p_.res.startswith("acmed::http::post_jose") or p_.res.startswith("acmed::http::post")) and p_.bb in sccset]
+            def _is_poll_switch(bb_):
+                t0 = body.term(bb_)
+                dl_ = op_local(t0["discr"]) if t0["t"] == "switch" else None
+                return any(k_ == "stmt" and st_["s"] == "assign" and st_["rv"]["k"] == "discr" and "task::poll::Poll" in (st_["rv"].get("adt") or "") for k_, b2, j2, st_ in body.defs.get(dl_, []))
+            errs = [(t_["bb"], tg) for p_ in pls for t_ in _te(body, [p_.dest["l"]]) if not _is_poll_switch(t_["bb"]) for tg in t_["err"]]
+            js = [x for x in body.calls if x.bb in sccset and (x.name or "").endswith("::json")]
+            errs += [(t_["bb"], tg) for x in js for t_ in _te(body, [x.dest["l"]]) for tg in t_["err"]]
+            ctx.require(R3, bool(errs), c.where(), "%s: the poll's result is tested for an error" % fn.rsplit("::", 1)[1], [fn, "poll-error-tested"])
+            for (sb_, tg) in errs:
+                if tg not in sccset:
+                    continue                       # leaves the loop at once
+                back = body.reachable([tg], removed_nodes=[]) & {c.bb}
+                leaving = [(u, w) for u in sccset for w in body.succ[u] if w not in sccset]
+                inloop = body.reachable([tg], removed_edges=leaving)
+                ctx.require(R3, c.bb not in inloop, "%s:%s" % (body.file_of(sb_), body.term(sb_).get("line")), "%s: a failed poll ends the polling (the request is not sent again)" % fn.rsplit("::", 1)[1],
+                            [fn, "poll-error-retried"])
         ctx.require(R3, len(posts) == 1 and len(in_loop) == 1, posts[-1].where() if posts else "-",
                     "%s polls only inside its bounded loop: one POST site, in the loop (found %d site(s), %d in a loop) — a poll after the loop is a 21st request"
                     % (fn.rsplit("::", 1)[1], len(posts), len(in_loop)), [fn, "poll-sites"])
